@@ -92,6 +92,10 @@ fn register_into(
                     StaticData::OptWriteC => add_static!(SOptWriteC),
                     StaticData::ReadExpectA => add_static!(SReadExpectA),
                     StaticData::ReadAWriteC => add_static!(SReadAWriteC),
+                    StaticData::OptReadAThenReadA => add_static!(SOptReadAThenReadA),
+                    StaticData::NamingThenProviding => add_static!(SNamingThenProviding),
+                    StaticData::GenReadA => add_static!(SGenReadA),
+                    StaticData::GenReadC => add_static!(SGenReadC),
                 }
             }
             Op::Batch(bs) => {
@@ -162,6 +166,26 @@ pub fn register(ops: &[Op], ctx: &Arc<Ctx>, pool: Option<Arc<rayon::ThreadPool>>
         if want_debug { Some(&mut dbg) } else { None },
     );
     Registered { builder: b, calls, debug_after: dbg }
+}
+
+/// `register` with a choice of where the user-supplied pool is handed over (see `Scenario::pool_placement`).
+pub fn register_placed(ops: &[Op], ctx: &Arc<Ctx>, pool: Option<Arc<rayon::ThreadPool>>, placement: u8) -> Registered {
+    if placement == 0 || pool.is_none() {
+        return register(ops, ctx, pool, false);
+    }
+    let mut b = DispatcherBuilder::new();
+    if placement == 2 {
+        b.add_pool(Arc::new(rayon::ThreadPoolBuilder::new().num_threads(1).build().unwrap()));
+        b.add_pool(pool.clone().unwrap());
+    }
+    let mut calls = Vec::new();
+    let mut next_id = 0;
+    let mut path = Vec::new();
+    register_into(&mut b, ops, &mut next_id, &mut path, ctx, &mut calls, &pool, None);
+    if placement == 1 {
+        b.add_pool(pool.clone().unwrap());
+    }
+    Registered { builder: b, calls, debug_after: Vec::new() }
 }
 
 pub fn build(b: Builder) -> Result<Dispatcher<'static, 'static>, String> {
